@@ -241,9 +241,11 @@ def configs(tier, seed):
             recs = recs + ([["implicit_midpoint", "direct", True]] if sc["metric"] == "dense_pd"
                            else [])
         elif fam == "riemannian":
-            if sc["softabs_coeff"] != 1.0:
-                continue
+            if sc["softabs_coeff"] not in (1.0, 0.5):
+                continue  # coefficient 10 is pre-asymptotic on the ladder
             recs = izoo.implicit_recipes(True)
+            if sc["softabs_coeff"] != 1.0:
+                recs = recs[:1] if quick else recs
         else:
             if quick and sc["metric"] not in ("identity", "dense_pd"):
                 continue
